@@ -37,6 +37,15 @@ EXPORTED ROUTINES
 #include "hdf_priv.h"
 #include "vg_priv.h"
 
+#ifdef HDF4_VERIF_SIM
+/* verification hook (off by default): the simulator shrinks the Vdata transfer buffer so that short
+   histories cross its boundary */
+int32 h4verif_vdata_buffer_max = VDATA_BUFFER_MAX;
+#undef VDATA_BUFFER_MAX
+#define VDATA_BUFFER_MAX h4verif_vdata_buffer_max
+#endif
+
+
 #ifndef MIN
 #define MIN(a, b) ((a) < (b) ? (a) : (b))
 #endif /* MIN */
